@@ -55,6 +55,7 @@ type Exec struct {
 	entryKV  map[*Object][2]*Term
 	repoSentinel map[int64]bool
 	ifaceN   int64
+	subCollect *[]Value
 }
 
 func NewExec(prog *ssa.Program, specs *SpecDB, cfg Config) *Exec {
